@@ -83,93 +83,200 @@ harness!(c17_float_views_total, unwind = 2, |s| {
 });
 
 // ---------------------------------------------------------------------------------------------------
-// Float-valued views are, by definition, the exact duration view rendered by Duration::to_unit; the
-// quality of that rendering (ulps, sign, monotonicity) is C18's subject. What is decided here is that no
-// view applies a wrong constant, unit or scale: each one equals the documented formula built from the
-// primitives that C01/C05/C18 decide (exact durations, Unit x f64 constants, to_unit), bit for bit.
-const MJD_1900: f64 = 15_020.0;
-const JD_MJD: f64 = 2_400_000.5;
-
-#[inline(always)]
-fn same(a: f64, b: f64) -> bool {
-    a.to_bits() == b.to_bits()
+// Float-valued views are, by definition, an exact duration view rendered by Duration::to_unit / to_seconds; the quality
+// of that rendering (ulps, sign, monotonicity) is C18's subject. What is decided here is that no view applies a wrong
+// constant, unit or scale: under Kani the two renderers are replaced by recording stubs and each view must hand them
+// exactly (elapsed time in the named scale + the statement's constant, the requested unit) -- integer comparisons only,
+// no float arithmetic left in the query. Natively (replay) nothing is stubbed and the view is compared bit for bit with the
+// renderer applied to the oracle duration.
+#[cfg(kani)]
+static mut REC_D: (i16, u64) = (0, 0);
+#[cfg(kani)]
+static mut REC_U: u8 = 255;
+#[cfg(kani)]
+fn stub_to_unit(d: &Duration, u: Unit) -> f64 {
+    unsafe {
+        REC_D = d.to_parts();
+        REC_U = u8::from(u);
+    }
+    0.0
+}
+#[cfg(kani)]
+fn stub_to_seconds(d: &Duration) -> f64 {
+    unsafe {
+        REC_D = d.to_parts();
+        REC_U = u8::from(Unit::Second);
+    }
+    0.0
 }
 
-harness!(c17_float_views_definition, unwind = 2, |s| {
+#[cfg(kani)]
+fn view_is(f: impl FnOnce() -> f64, want: Option<(i16, u64)>, u: Unit) -> bool {
+    unsafe {
+        REC_U = 255;
+    }
+    let _ = f();
+    match want {
+        Some(p) => unsafe { REC_D == p && REC_U == u8::from(u) },
+        None => false,
+    }
+}
+#[cfg(not(kani))]
+fn view_is(f: impl FnOnce() -> f64, want: Option<(i16, u64)>, u: Unit) -> bool {
+    match want {
+        Some(p) => f().to_bits() == Duration::from_parts(p.0, p.1).to_unit(u).to_bits(),
+        None => false,
+    }
+}
+
+macro_rules! view_harness {
+    ($name:ident, unwind = $n:literal, |$s:ident| $body:block) => {
+        harness_stubbed!($name, unwind = $n,
+            stubs = [(crate::duration::Duration::to_unit, crate::verif::c17::stub_to_unit),
+                     (crate::duration::Duration::to_seconds, crate::verif::c17::stub_to_seconds)],
+            |$s| $body);
+    };
+}
+
+view_harness!(c17_float_views_definition, unwind = 2, |s| {
     let d = span(s);
     let u = any_unit(s);
     let e = Epoch::from_duration(d, TimeScale::TAI);
-    let tai = e.to_tai_duration();
-    let tt = e.to_tt_duration();
-    let mjd_tai = tai + Unit::Day * MJD_1900;
-    let jde_tai = e.to_jde_tai_duration();
-    v_assert!(s, same(e.to_mjd_tai(u), mjd_tai.to_unit(u)), "to_mjd_tai(unit) = (TAI elapsed + 15020 d) in that unit");
-    v_assert!(s, same(e.to_mjd_tai_days(), mjd_tai.to_unit(Unit::Day)) && same(e.to_mjd_tai_seconds(), mjd_tai.to_unit(Unit::Second)), "MJD TAI days / seconds");
-    v_assert!(s, same(e.to_jde_tai(u), jde_tai.to_unit(u)), "to_jde_tai(unit) = JD(TAI) duration in that unit");
-    v_assert!(s, same(e.to_jde_tai_days(), jde_tai.to_unit(Unit::Day)) && same(e.to_jde_tai_seconds(), jde_tai.to_unit(Unit::Second)), "JD TAI days / seconds");
-    v_assert!(s, same(e.to_tai(u), tai.to_unit(u)) && same(e.to_tai_seconds(), tai.to_seconds()) && same(e.to_tai_days(), tai.to_unit(Unit::Day)), "TAI elapsed in a unit");
-    v_assert!(s, same(e.to_tt_seconds(), tt.to_seconds()) && same(e.to_tt_days(), tt.to_unit(Unit::Day)), "TT elapsed seconds / days");
-    v_assert!(s, same(e.to_jde_tt_days(), e.to_jde_tt_duration().to_unit(Unit::Day)) && same(e.to_mjd_tt_days(), e.to_mjd_tt_duration().to_unit(Unit::Day)), "JD / MJD TT days");
-    v_assert!(s, same(e.to_tt_centuries_j2k(), e.to_tt_since_j2k().to_unit(Unit::Century)), "TT centuries since J2000");
+    let tai = Some(d.to_parts());
+    let tt = shift_parts(d.to_parts(), 32_184_000_000);
+    let mjd_tai = shift_far(d.to_parts(), MJD_1900_NS);
+    let jde_tai = shift_far(d.to_parts(), MJD_1900_NS + JD_MINUS_MJD_NS);
+    let far = |p: Option<(i16, u64)>, delta: i128| match p {
+        Some(p) => shift_far(p, delta),
+        None => None,
+    };
+    v_assert!(s, view_is(|| e.to_mjd_tai(u), mjd_tai, u), "to_mjd_tai(unit) renders TAI elapsed + 15020 d in that unit");
+    v_assert!(s, view_is(|| e.to_mjd_tai_days(), mjd_tai, Unit::Day) && view_is(|| e.to_mjd_tai_seconds(), mjd_tai, Unit::Second), "MJD TAI days / seconds");
+    v_assert!(s, view_is(|| e.to_jde_tai(u), jde_tai, u), "to_jde_tai(unit) renders TAI elapsed + 2415020.5 d in that unit");
+    v_assert!(s, view_is(|| e.to_jde_tai_days(), jde_tai, Unit::Day) && view_is(|| e.to_jde_tai_seconds(), jde_tai, Unit::Second), "JD TAI days / seconds");
+    v_assert!(s, view_is(|| e.to_tai(u), tai, u) && view_is(|| e.to_tai_seconds(), tai, Unit::Second) && view_is(|| e.to_tai_days(), tai, Unit::Day), "TAI elapsed in a unit");
+    v_assert!(s, view_is(|| e.to_tt_seconds(), tt, Unit::Second) && view_is(|| e.to_tt_days(), tt, Unit::Day), "TT elapsed seconds / days");
+    v_assert!(s, view_is(|| e.to_jde_tt_days(), far(tt, MJD_1900_NS + JD_MINUS_MJD_NS), Unit::Day) && view_is(|| e.to_mjd_tt_days(), far(tt, MJD_1900_NS), Unit::Day), "JD / MJD TT days");
+    v_assert!(s, view_is(|| e.to_tt_centuries_j2k(), far(tt, -J2000_S * NPS as i128), Unit::Century), "TT centuries since J2000");
     v_cover!(d.to_parts().0 < 0, "before 1900 reachable");
 });
 
 // UTC-labelled views on a UTC epoch (no leap-second lookup involved: the epoch already counts UTC)
-harness!(c17_float_views_utc_definition, unwind = 2, |s| {
+// unwind 44: the UNIX reference epoch is converted to UTC through the leap-second table
+view_harness!(c17_float_views_utc_definition, unwind = 44, |s| {
     let d = span(s);
     let u = any_unit(s);
     let e = Epoch::from_duration(d, TimeScale::UTC);
-    let utc = e.to_utc_duration();
-    v_assert!(s, utc.to_parts() == d.to_parts(), "UTC elapsed time of a UTC epoch is its own");
-    let mjd_utc = utc + Unit::Day * MJD_1900;
-    v_assert!(s, same(e.to_mjd_utc(u), mjd_utc.to_unit(u)), "to_mjd_utc(unit) = (UTC elapsed + 15020 d) in that unit");
-    v_assert!(s, same(e.to_mjd_utc_days(), mjd_utc.to_unit(Unit::Day)) && same(e.to_mjd_utc_seconds(), mjd_utc.to_unit(Unit::Second)), "MJD UTC days / seconds");
-    let jde_utc = e.to_jde_utc_duration();
-    v_assert!(s, same(e.to_jde_utc_days(), jde_utc.to_unit(Unit::Day)) && same(e.to_jde_utc_seconds(), jde_utc.to_seconds()), "JD UTC days / seconds");
-    v_assert!(s, same(e.to_utc(u), utc.to_unit(u)) && same(e.to_utc_seconds(), utc.to_unit(Unit::Second)) && same(e.to_utc_days(), utc.to_unit(Unit::Day)), "UTC elapsed in a unit");
-    let unix = e.verif_to_unix_duration();
-    v_assert!(s, same(e.to_unix(u), unix.to_unit(u)), "to_unix(unit) = UNIX duration in that unit");
-    v_assert!(s, same(e.to_unix_seconds(), unix.to_unit(Unit::Second)) && same(e.to_unix_milliseconds(), unix.to_unit(Unit::Millisecond)) && same(e.to_unix_days(), unix.to_unit(Unit::Day)), "UNIX seconds / ms / days");
+    let utc = Some(d.to_parts());
+    let mjd_utc = shift_far(d.to_parts(), MJD_1900_NS);
+    let jde_utc = shift_far(d.to_parts(), MJD_1900_NS + JD_MINUS_MJD_NS);
+    let unix = shift_far(d.to_parts(), -(days_from_1900(1970, 1, 1) as i128 * DAY));
+    v_assert!(s, view_is(|| e.to_mjd_utc(u), mjd_utc, u), "to_mjd_utc(unit) renders UTC elapsed + 15020 d in that unit");
+    v_assert!(s, view_is(|| e.to_mjd_utc_days(), mjd_utc, Unit::Day) && view_is(|| e.to_mjd_utc_seconds(), mjd_utc, Unit::Second), "MJD UTC days / seconds");
+    v_assert!(s, view_is(|| e.to_jde_utc_days(), jde_utc, Unit::Day) && view_is(|| e.to_jde_utc_seconds(), jde_utc, Unit::Second), "JD UTC days / seconds");
+    v_assert!(s, view_is(|| e.to_utc(u), utc, u) && view_is(|| e.to_utc_seconds(), utc, Unit::Second) && view_is(|| e.to_utc_days(), utc, Unit::Day), "UTC elapsed in a unit");
+    v_assert!(s, view_is(|| e.to_unix(u), unix, u), "to_unix(unit) renders UTC elapsed since 1970-01-01 in that unit");
+    v_assert!(s, view_is(|| e.to_unix_seconds(), unix, Unit::Second) && view_is(|| e.to_unix_milliseconds(), unix, Unit::Millisecond) && view_is(|| e.to_unix_days(), unix, Unit::Day), "UNIX seconds / ms / days");
     v_cover!(d.to_parts().0 < 0, "before 1900 reachable");
 });
 
-// Constructors from a float JD / MJD / UNIX / elapsed value: exactly the documented formula, for every finite input
-harness!(c17_float_constructors_definition, unwind = 2, |s| {
+// Constructors from a float JD / MJD / UNIX / elapsed value: exactly the documented formula, for every finite input.
+// Under Kani `Unit * f64` is a recording stub (returns ZERO): the constructor must hand it (x - constant, the unit).
+#[cfg(kani)]
+static mut RECM_UNIT: u8 = 255;
+#[cfg(kani)]
+static mut RECM_BITS: u64 = 0;
+#[cfg(kani)]
+static mut RECM_CALLS: u8 = 0;
+#[cfg(kani)]
+fn stub_unit_mul_f64(u: Unit, q: f64) -> Duration {
+    unsafe {
+        RECM_UNIT = u8::from(u);
+        RECM_BITS = q.to_bits();
+        RECM_CALLS += 1;
+    }
+    Duration::ZERO
+}
+
+/// `f` builds an epoch in scale `ts` whose elapsed time is `base + q * unit`
+#[cfg(kani)]
+fn built_as(f: impl FnOnce() -> Epoch, ts: TimeScale, base: (i16, u64), q: f64, u: Unit) -> bool {
+    unsafe {
+        RECM_CALLS = 0;
+    }
+    let e = f();
+    // (the UNIX constructors also convert the UNIX reference epoch to UTC, which multiplies the leap-second count by
+    // Unit::Second before the call under test: at least one call, and the last one is the one that matters)
+    unsafe { RECM_CALLS >= 1 && (RECM_CALLS == 1 || base != (0, 0)) && RECM_UNIT == u8::from(u) && RECM_BITS == q.to_bits() && e.time_scale == ts && e.duration.to_parts() == base }
+}
+#[cfg(not(kani))]
+fn built_as(f: impl FnOnce() -> Epoch, ts: TimeScale, base: (i16, u64), q: f64, u: Unit) -> bool {
+    let e = f();
+    e.time_scale == ts && e.duration.to_parts() == (Duration::from_parts(base.0, base.1) + q * u).to_parts()
+}
+
+const JD_MJD: f64 = 2_400_000.5;
+const MJD_1900: f64 = 15_020.0;
+
+harness_stubbed!(c17_float_constructors_definition, unwind = 44,
+    stubs = [(<crate::timeunits::Unit as core::ops::Mul<f64>>::mul, crate::verif::c17::stub_unit_mul_f64)],
+    |s| {
     let x = s.f64();
     s.assume(x.is_finite());
-    let mjd = (x - MJD_1900) * Unit::Day;
-    let jde = (x - MJD_1900 - JD_MJD) * Unit::Day;
-    with_uniform(s, |s, ts| {
-        let a = Epoch::from_mjd_in_time_scale(x, ts);
-        v_assert!(s, a.time_scale == ts && a.duration.to_parts() == mjd.to_parts(), "from_mjd_in_time_scale = (x - 15020) days in that scale");
-        let b = Epoch::from_jde_in_time_scale(x, ts);
-        v_assert!(s, b.time_scale == ts && b.duration.to_parts() == jde.to_parts(), "from_jde_in_time_scale = (x - 15020 - 2400000.5) days in that scale");
-    });
-    let w = [
-        (Epoch::from_mjd_tai(x), TimeScale::TAI), (Epoch::from_mjd_utc(x), TimeScale::UTC), (Epoch::from_mjd_gpst(x), TimeScale::GPST),
-        (Epoch::from_mjd_qzsst(x), TimeScale::QZSST), (Epoch::from_mjd_gst(x), TimeScale::GST), (Epoch::from_mjd_bdt(x), TimeScale::BDT),
-    ];
-    for (e, ts) in w {
-        v_assert!(s, e.time_scale == ts && e.duration.to_parts() == mjd.to_parts(), "from_mjd_<scale> wrappers");
-    }
-    let j = [
-        (Epoch::from_jde_tai(x), TimeScale::TAI), (Epoch::from_jde_utc(x), TimeScale::UTC), (Epoch::from_jde_gpst(x), TimeScale::GPST),
-        (Epoch::from_jde_qzsst(x), TimeScale::QZSST), (Epoch::from_jde_gst(x), TimeScale::GST), (Epoch::from_jde_bdt(x), TimeScale::BDT),
-    ];
-    for (e, ts) in j {
-        v_assert!(s, e.time_scale == ts && e.duration.to_parts() == jde.to_parts(), "from_jde_<scale> wrappers");
-    }
-    let secs = x * Unit::Second;
-    let days = x * Unit::Day;
-    v_assert!(s, Epoch::from_tai_seconds(x).duration.to_parts() == secs.to_parts() && Epoch::from_tai_seconds(x).time_scale == TimeScale::TAI, "from_tai_seconds");
-    v_assert!(s, Epoch::from_tai_days(x).duration.to_parts() == days.to_parts() && Epoch::from_tai_days(x).time_scale == TimeScale::TAI, "from_tai_days");
-    v_assert!(s, Epoch::from_utc_seconds(x).duration.to_parts() == secs.to_parts() && Epoch::from_utc_seconds(x).time_scale == TimeScale::UTC, "from_utc_seconds");
-    v_assert!(s, Epoch::from_utc_days(x).duration.to_parts() == days.to_parts() && Epoch::from_utc_days(x).time_scale == TimeScale::UTC, "from_utc_days");
+    let z = (0i16, 0u64);
+    let ts = any_uniform(s);
+    v_assert!(s, built_as(|| Epoch::from_mjd_in_time_scale(x, ts), ts, z, x - MJD_1900, Unit::Day), "from_mjd_in_time_scale = (x - 15020) days in that scale");
+    v_assert!(s, built_as(|| Epoch::from_jde_in_time_scale(x, ts), ts, z, x - MJD_1900 - JD_MJD, Unit::Day), "from_jde_in_time_scale = (x - 15020 - 2400000.5) days in that scale");
+    v_assert!(s, built_as(|| Epoch::from_tai_seconds(x), TimeScale::TAI, z, x, Unit::Second) && built_as(|| Epoch::from_tai_days(x), TimeScale::TAI, z, x, Unit::Day), "from_tai_seconds / from_tai_days");
+    v_assert!(s, built_as(|| Epoch::from_utc_seconds(x), TimeScale::UTC, z, x, Unit::Second) && built_as(|| Epoch::from_utc_days(x), TimeScale::UTC, z, x, Unit::Day), "from_utc_seconds / from_utc_days");
     // UNIX: 1970-01-01 00:00:00 UTC is 25567 days after 1900-01-01 in the UTC count
-    let unix0 = Duration::from_parts(0, days_from_1900(1970, 1, 1) as u64 * NPD);
-    let us = Epoch::from_unix_seconds(x);
-    v_assert!(s, us.time_scale == TimeScale::UTC && us.duration.to_parts() == (unix0 + secs).to_parts(), "from_unix_seconds = 1970-01-01 UTC + x s");
-    let ums = Epoch::from_unix_milliseconds(x);
-    v_assert!(s, ums.time_scale == TimeScale::UTC && ums.duration.to_parts() == (unix0 + x * Unit::Millisecond).to_parts(), "from_unix_milliseconds = 1970-01-01 UTC + x ms");
+    let unix0 = (0i16, days_from_1900(1970, 1, 1) as u64 * NPD);
+    v_assert!(s, built_as(|| Epoch::from_unix_seconds(x), TimeScale::UTC, unix0, x, Unit::Second), "from_unix_seconds = 1970-01-01 UTC + x s");
+    v_assert!(s, built_as(|| Epoch::from_unix_milliseconds(x), TimeScale::UTC, unix0, x, Unit::Millisecond), "from_unix_milliseconds = 1970-01-01 UTC + x ms");
     v_cover!(x < 0.0 && x != x.trunc(), "negative non-integer input reachable");
+});
+
+// the per-scale wrappers hand (x, their scale) to from_mjd_in_time_scale / from_jde_in_time_scale (recording stubs under Kani)
+#[cfg(kani)]
+static mut RECW: (u8, u64, u8) = (0, 0, 255);
+#[cfg(kani)]
+fn stub_from_mjd(days: f64, ts: TimeScale) -> Epoch {
+    unsafe {
+        RECW = (1, days.to_bits(), ts as u8);
+    }
+    Epoch::from_duration(Duration::ZERO, ts)
+}
+#[cfg(kani)]
+fn stub_from_jde(days: f64, ts: TimeScale) -> Epoch {
+    unsafe {
+        RECW = (2, days.to_bits(), ts as u8);
+    }
+    Epoch::from_duration(Duration::ZERO, ts)
+}
+#[cfg(kani)]
+fn wraps(f: impl FnOnce() -> Epoch, kind: u8, x: f64, ts: TimeScale) -> bool {
+    unsafe {
+        RECW = (0, 0, 255);
+    }
+    let e = f();
+    unsafe { RECW == (kind, x.to_bits(), ts as u8) && e.time_scale == ts }
+}
+#[cfg(not(kani))]
+fn wraps(f: impl FnOnce() -> Epoch, kind: u8, x: f64, ts: TimeScale) -> bool {
+    let e = f();
+    let r = if kind == 1 { Epoch::from_mjd_in_time_scale(x, ts) } else { Epoch::from_jde_in_time_scale(x, ts) };
+    e.time_scale == ts && e.duration.to_parts() == r.duration.to_parts()
+}
+
+harness_stubbed!(c17_float_constructor_wrappers, unwind = 2,
+    stubs = [(crate::epoch::Epoch::from_mjd_in_time_scale, crate::verif::c17::stub_from_mjd),
+             (crate::epoch::Epoch::from_jde_in_time_scale, crate::verif::c17::stub_from_jde)],
+    |s| {
+    let x = s.f64();
+    s.assume(x.is_finite());
+    v_assert!(s, wraps(|| Epoch::from_mjd_tai(x), 1, x, TimeScale::TAI) && wraps(|| Epoch::from_mjd_utc(x), 1, x, TimeScale::UTC) && wraps(|| Epoch::from_mjd_gpst(x), 1, x, TimeScale::GPST)
+        && wraps(|| Epoch::from_mjd_qzsst(x), 1, x, TimeScale::QZSST) && wraps(|| Epoch::from_mjd_gst(x), 1, x, TimeScale::GST) && wraps(|| Epoch::from_mjd_bdt(x), 1, x, TimeScale::BDT), "from_mjd_<scale> wrappers");
+    v_assert!(s, wraps(|| Epoch::from_jde_tai(x), 2, x, TimeScale::TAI) && wraps(|| Epoch::from_jde_utc(x), 2, x, TimeScale::UTC) && wraps(|| Epoch::from_jde_gpst(x), 2, x, TimeScale::GPST)
+        && wraps(|| Epoch::from_jde_qzsst(x), 2, x, TimeScale::QZSST) && wraps(|| Epoch::from_jde_gst(x), 2, x, TimeScale::GST) && wraps(|| Epoch::from_jde_bdt(x), 2, x, TimeScale::BDT), "from_jde_<scale> wrappers");
+    v_cover!(x < 0.0, "negative input reachable");
 });
